@@ -1,6 +1,3 @@
 package main
 
 type fieldRef struct{ pkg, typ, field string }
-
-func ruleConfigKeying(w *World, r *Run, rule string)  {}
-func ruleInitBeforeUse(w *World, r *Run, rule string) {}
